@@ -72,7 +72,7 @@ func seedTxs(n *vx.Node) []*types.Transaction {
 // inconclusive, never a violation.
 func theNode() *vx.Node {
 	nodeOnce.Do(func() {
-		n, err := vx.NewNode(nSenders, seedTxs)
+		n, err := vx.NewNode("", nSenders, seedTxs)
 		if err != nil {
 			lib.Inconclusive("node fixture: %v", err)
 		}
@@ -501,8 +501,11 @@ func checkCase(t lib.TB, test string, items []item) caseStats {
 		lib.Violation(t, prop, test, items, format, a...)
 	}
 	res, err := n.Run(all)
-	if err != nil {
+	if _, aborted := err.(*vx.ReplyError); aborted {
+		// no generated program can legitimately abort the whole block: panics are confined to one transaction
 		fail("executing the block failed: %v", err)
+	} else if err != nil {
+		lib.Inconclusive("node fixture: %v", err)
 	}
 	tolerate := lib.Known(knownLeak)
 	// 1. receipts of EventExecTxList
